@@ -218,7 +218,7 @@ func runCase(c caseLine) result {
 	case "SPS":
 		return runSPS(nalu, c.arg == "1")
 	}
-	return result{outcome: "badkind"}
+	return runHevcCase(c, nalu)
 }
 
 // ---------------------------------------------------------------- captured parameter sets
@@ -356,6 +356,9 @@ func corr(cases []caseLine, repo string) {
 		r := runCase(c)
 		fmt.Fprintf(out, "%s\t%s\t%s\t%s\t%s\t%s\t%s\n", c.kind, c.id, c.arg, c.nalu, c.g, c.exp, r.String())
 	}
+	for _, c := range capturedHevc(repo) {
+		emitObs(c)
+	}
 	cap := captured(repo)
 	k := 0
 	for _, n := range cap["avc"] {
@@ -368,6 +371,19 @@ func corr(cases []caseLine, repo string) {
 			}
 		}
 	}
+}
+
+func siteOf(kind string) string {
+	switch kind {
+	case "SPS":
+		return "avc.ParseSPSNALUnit"
+	}
+	return hevcSiteOf(kind)
+}
+
+func emitObs(c caseLine) {
+	r := runCase(c)
+	fmt.Fprintf(out, "%s\t%s\t%s\t%s\t%s\t%s\t%s\n", c.kind, c.id, c.arg, c.nalu, c.g, c.exp, r.String())
 }
 
 // ---------------------------------------------------------------- search
@@ -385,7 +401,7 @@ func search(cases []caseLine) {
 		}
 		evals++
 		r := runCase(c)
-		site := map[string]string{"SPS": "avc.ParseSPSNALUnit"}[c.kind]
+		site := siteOf(c.kind)
 		wit := c.kind + " arg=" + c.arg + " nalu=" + c.nalu
 		if r.outcome != "ok" {
 			class := "valid-input-" + r.outcome
@@ -419,6 +435,9 @@ func search(cases []caseLine) {
 		}
 		if onlyOff && c.kind == "SPS" {
 			class = "se-read-as-ue"
+		}
+		if cl := classifyHevc(c, bad); cl != "" {
+			class = cl
 		}
 		first := bad[0]
 		desc := fmt.Sprintf("parsed value differs from the coded value in %d field(s), first %s", len(bad), first)
